@@ -152,4 +152,6 @@ Consistent(p) ==
   /\ \A o \in p.observed : o[1] \in N
   /\ \A n \in p.priv : n \in N /\ Degree(p.edges, n) > 0
   /\ p.params \subseteq N
+  \* every parameter slot (position or keyword) of a child is filled by at most one parent
+  /\ \A e1, e2 \in p.edges : (e1[2] = e2[2] /\ e1[3] = e2[3]) => e1 = e2
 =============================================================================
